@@ -14,6 +14,7 @@ length, with a word or value out of range, or with a digit outside the numeral's
 import NetaddrVerif.Lemmas.C15LBytes
 import NetaddrVerif.Lemmas.C15LBits
 import NetaddrVerif.Lemmas.C15LB85
+import NetaddrVerif.Lemmas.C15LArpa
 namespace NV.C15
 open NV NV.Codec NV.Py
 
@@ -577,5 +578,88 @@ theorem arpa4_spec (v : Nat) (hv : v < 2 ^ 32) :
 example : V4.intToArpa 0xC0000201 = .ok "1.2.0.192.in-addr.arpa.".toList := by rfl
 set_option maxRecDepth 8000 in
 example : V6.intToArpa 1 = .ok "1.0.0.0.0.0.0.0.0.0.0.0.0.0.0.0.0.0.0.0.0.0.0.0.0.0.0.0.0.0.0.0.ip6.arpa.".toList := by rfl
+
+private theorem digitChar_ne_colon : ∀ d, d < 16 → Nat.digitChar d ≠ ':' := by decide
+
+/-- `ipv6.int_to_arpa`: the 32 nibbles of the address, least significant first, as lower-case
+    hex digits, then `ip6.arpa.` -/
+theorem arpa6_spec (v : Nat) (hv : v < 2 ^ 128) :
+    V6.intToArpa v = .ok (['.'].intercalate
+      ((List.range 32).map (fun i => [Nat.digitChar (v / 2 ^ (4 * i) % 2 ^ 4)]) ++
+        ["ip6".toList, "arpa".toList, []])) := by
+  let H := (wordsLoop 16 8 v).reverse
+  have hHlt : ∀ h ∈ H, h < 16 ^ 4 := fun h hh => wordsLoop_lt 16 8 v h (by simpa [H] using hh)
+  have h1 := (v6_intToPacked_spec v).1 hv
+  have h2 : unpackFields 2 8 (beBytes 16 v) = .ok H := by
+    have hc := chunks_beBytes 2 8 v
+    simp only [Nat.reduceMul] at hc
+    simp only [unpackFields, beBytes_length, Nat.reduceMul, ne_eq, not_true_eq_false, if_false, hc, H]
+  have htok : ∀ h ∈ H, fmtHex 4 false h = (wordsLoop 4 4 h).reverse.map Nat.digitChar :=
+    fun h hh => fmtHex_nibbles 4 (by decide) h (hHlt h hh)
+  have h3 : V6.intToStrVerbose v = .ok ([':'].intercalate (H.map (fmtHex 4 false))) := by
+    simp only [V6.intToStrVerbose, h1, h2]; rfl
+  have h4 : replaceDel [':'] ([':'].intercalate (H.map (fmtHex 4 false))) = (H.map (fmtHex 4 false)).flatten := by
+    have := replaceDel_intercalate [':'] (H.map (fmtHex 4 false)) (Or.inr ⟨':', rfl, by
+      intro l hl hmem
+      simp only [List.mem_map] at hl
+      obtain ⟨h, hh, rfl⟩ := hl
+      rw [htok h hh] at hmem
+      simp only [List.mem_map, List.mem_reverse] at hmem
+      obtain ⟨d, hd, he⟩ := hmem
+      exact digitChar_ne_colon d (by have := wordsLoop_lt 4 4 h d hd; omega) he⟩)
+    simpa using this
+  have h5 : (H.map (fmtHex 4 false)).flatten = (wordsLoop 4 32 v).reverse.map Nat.digitChar := by
+    have e : H.map (fmtHex 4 false) = H.map (fun h => (wordsLoop 4 4 h).reverse.map Nat.digitChar) :=
+      List.map_congr_left htok
+    have hr := regroup 4 4 8 v
+    simp only [Nat.reduceMul] at hr
+    rw [e, ← hr]
+    simp only [H, List.map_flatten, List.map_map, Function.comp_def]
+  simp only [V6.intToArpa, h3, bind, Except.bind, h4, h5, pure, Except.pure]
+  congr 2
+  rw [← List.map_reverse, List.reverse_reverse, wordsLoop_range, List.map_map, List.map_map]
+  rfl
+
+/-! ## further shape facts -/
+
+/-- word i of `int_to_words` is digit `nw-1-i` of v in base 2^ws (big-endian word tuple) -/
+theorem intToWords_get (v ws nw i : Nat) (hv : v < 2 ^ (nw * ws)) (hi : i < nw) :
+    ∃ words, intToWords v ws nw = .ok words ∧ words[i]? = some (v / 2 ^ (ws * (nw - 1 - i)) % 2 ^ ws) := by
+  have hp := pow_pos2 (nw * ws)
+  refine ⟨(wordsLoop ws nw v).reverse, by simp only [intToWords]; rw [if_pos (by omega)], ?_⟩
+  rw [List.getElem?_reverse (by simpa [wordsLoop_length] using hi), wordsLoop_length, wordsLoop_range]
+  rw [List.getElem?_map, List.getElem?_range (by omega)]
+  rfl
+
+private def sepOkB (sep : List Char) : Bool :=
+  match sep with
+  | [] => true
+  | [c] => c != '0' && c != '1'
+  | _ => false
+
+private theorem dialect_seps_ok : ∀ d ∈ Gen.macDialects ++ Gen.eui64Dialects, sepOkB d.sep = true := by decide
+
+/-- decoder ∘ encoder = id on bit strings for the word size / separator of **every built-in
+    dialect** and of the two IP families -/
+theorem bits_roundtrip_builtin (v : Nat) :
+    (∀ d ∈ Gen.macDialects ++ Gen.eui64Dialects, v < 2 ^ (d.numWords * d.wordSize) → 1 ≤ d.wordSize * d.numWords →
+      ∃ s, intToBits v d.wordSize d.numWords d.sep = .ok s ∧
+        bitsToInt s (d.wordSize * d.numWords) d.sep = .ok (Int.ofNat v)) ∧
+    (v < 2 ^ 32 → ∃ s, V4.intToBits v none = .ok s ∧ V4.bitsToInt s = .ok (Int.ofNat v)) ∧
+    (v < 2 ^ 128 → ∃ s, V6.intToBits v none = .ok s ∧ V6.bitsToInt s = .ok (Int.ofNat v)) := by
+  refine ⟨?_, ?_, ?_⟩
+  · intro d hd hv hw
+    apply bits_roundtrip v d.wordSize d.numWords d.sep hv hw
+    have := dialect_seps_ok d hd
+    unfold sepOkB at this
+    match hs : d.sep, this with
+    | [], _ => exact Or.inl rfl
+    | [c], h =>
+      simp only [Bool.and_eq_true, bne_iff_ne, ne_eq] at h
+      exact Or.inr ⟨c, rfl, h.1, h.2⟩
+  · intro hv
+    exact bits_roundtrip v 8 4 ['.'] hv (by decide) (Or.inr ⟨'.', rfl, by decide, by decide⟩)
+  · intro hv
+    exact bits_roundtrip v 16 8 [':'] hv (by decide) (Or.inr ⟨':', rfl, by decide, by decide⟩)
 
 end NV.C15
